@@ -54,4 +54,19 @@ MUTANTS = [
     dict(prop="C15", name="set-u56n-writes-8", file="include/ufw/binary-format.h",
          old="    dst[5u] = src[5u];\n    dst[6u] = src[6u];\n#else\n    /* Top of file makes sure this can't happen. */\n#endif /* SYSTEM_ENDIANNESS_* */\n    return dst + 7u;",
          new="    dst[5u] = src[5u];\n    dst[6u] = src[6u];\n    dst[7u] = src[7u];\n#else\n    /* Top of file makes sure this can't happen. */\n#endif /* SYSTEM_ENDIANNESS_* */\n    return dst + 7u;"),
+    # ---- C12
+    dict(prop="C12", name="decoder-swaps-escapes", file="src/rfc1055.c",
+         old="        case ESC_EOF: *data = RAW_EOF; break;\n        case ESC_ESC: *data = RAW_ESC; break;", new="        case ESC_EOF: *data = RAW_ESC; break;\n        case ESC_ESC: *data = RAW_EOF; break;"),
+    # (staying in NORMAL after an invalid escape only turns the rest of the damaged frame into a bogus frame that ends at the
+    #  delimiter - the property does not forbid that; the mutant below loses a well-formed frame instead)
+    dict(prop="C12", name="esc-end-searches-for-end", file="src/rfc1055.c",
+         old="                    ctx->state = (data == RAW_EOF)\n                        ? RFC1055_NORMAL\n                        : RFC1055_SEARCH_FOR_END;", new="                    ctx->state = RFC1055_SEARCH_FOR_END;"),
+    dict(prop="C12", name="no-sof-octet", file="src/rfc1055.c",
+         old="        const int rc = sink_put_octet(sink, RAW_EOF);\n        return rc < 0 ? rc : 0;\n    }\n\n    return 0;", new="        return 0;\n    }\n\n    return 0;"),
+    dict(prop="C12", name="swallow-sink-error-in-decode", file="src/rfc1055.c",
+         old="            MAYBE_RETURN(sink_put_octet(sink, data));\n            break; }", new="            (void)sink_put_octet(sink, data);\n            break; }"),
+    dict(prop="C12", name="sof-resync-loses-two", file="src/rfc1055.c",
+         old="                    BIT_ISSET(ctx->flags, RFC1055_WITH_SOF)\n                    ? RFC1055_SEARCH_FOR_START\n                    : RFC1055_NORMAL;", new="                    BIT_ISSET(ctx->flags, RFC1055_WITH_SOF)\n                    ? RFC1055_SEARCH_FOR_END\n                    : RFC1055_NORMAL;"),
+    dict(prop="C12", name="encode-source-error-as-end", file="src/rfc1055.c",
+         old="        if (get == -ENODATA || get == 0) {", new="        if (get == -ENODATA || get == 0 || get == -EIO) {"),
 ]
